@@ -1,10 +1,540 @@
-//! C40 — not built yet.
+//! C40 Cleanup keeps everything still needed.
+//!
+//! E-rpki histories of 2-5 runs in which CAs appear in / vanish from their parent's manifest, move
+//! between rsync modules (same key re-certified with a SIA in another module), never succeed, and
+//! in which modules are unreachable, runs are offline, `dirty` is on or off and failing runs are
+//! interleaved (forced outcome; initial quick run that meets a new point; a stored point path that
+//! cannot be read). After each successful run:
+//!  (a) every stored point of the model (its manifest EE certificate is unexpired) still exists,
+//!      read with routinator's reader, byte-identical;
+//!  (b) the rsync module copies the model retains (attempted in this run or hosting a retained
+//!      stored point) exist with the files of the version last transferred (directory listing);
+//!  (c) a probe run over a copy of the cache with every module unreachable reproduces the model's
+//!      payload from the cache alone;
+//!  dirty => nothing that existed before the run is gone; failed run => nothing is gone.
+//! Thorough tier only: manifests whose EE certificate expires 4 s after issuing, second run after
+//! the expiry (wide margins, dropped when the machine is too slow).
+
+use std::collections::BTreeSet;
+use std::path::PathBuf;
+
+use proptest::strategy::Strategy;
+use serde::{Deserialize, Serialize};
 
 use crate::core::*;
+use crate::crash::{copy_tree, list_tree};
+use crate::erpki::*;
+use crate::erun::scratch_base;
+use crate::escen::*;
 
-pub const IMPLEMENTED: bool = false;
+#[derive(Serialize, Deserialize, Clone, Copy, Debug, PartialEq, Eq)]
+pub enum Mode {
+    Normal,
+    /// `ValidationReport::process` fails before the run (verif hook), retryable / fatal
+    ForcedRetry,
+    ForcedFatal,
+    /// initial quick run (`initial = true`, no collector): fails when it meets a new point
+    Initial,
+    /// the stored point path of the CA (index modulo the attempted ones) is a directory: the run
+    /// fails while opening it
+    PointBlocked(u8),
+}
 
-pub fn run(_ctx: &Ctx, _rep: &mut Report, _replay: Option<&serde_json::Value>) {
-    eprintln!("C40: check not implemented");
-    std::process::exit(2);
+#[derive(Serialize, Deserialize, Clone, Debug)]
+pub struct Case {
+    pub sc: Scenario,
+    pub modes: Vec<Mode>,
+    /// seconds to sleep before step i (expiry cases only)
+    #[serde(default)]
+    pub sleep_before: Vec<u64>,
+}
+
+const MODULES: usize = 3;
+
+pub fn case(words: &[u16]) -> Case {
+    let mut d = D::new(words);
+    let p = Profile { max_objs: 3, obj_faults: false, pp_faults: false, cert_faults: false, ..Default::default() };
+    let mut cfg = Cfg { threads: d.pick(&[2usize, 1, 4]), ..Default::default() };
+    cfg.dirty = d.chance(1, 4);
+    cfg.unsafe_vrps = d.pick(&[2u8, 0]);
+    let nsteps = 2 + d.below(4);
+    let nver = nsteps.min(3);
+    let ntals = 1 + d.below(2);
+    let ncas = ntals + 2 + d.below(4);
+    let mut cas: Vec<Ca> = Vec::new();
+    // presence[i][v]: is CA i's certificate published by version v of its parent
+    let mut presence: Vec<Vec<bool>> = Vec::new();
+    let patterns: [[bool; 3]; 6] = [[true, true, true], [true, false, false], [false, true, true], [true, true, false], [true, false, true], [false, false, true]];
+    for i in 0..ncas {
+        let parent = if i < ntals { None } else { Some(d.below(i)) };
+        let module = d.below(MODULES);
+        let never_ok = parent.is_some() && d.chance(1, 6);
+        let versions: Vec<Version> = (0..nver)
+            .map(|v| {
+                let mut ver = decode_version(&mut d, &p, v);
+                if ver.objs.is_empty() {
+                    ver.objs.push(decode_obj(&mut d, &p));
+                }
+                ver.number = 100 + 10 * v as u64;
+                ver.this_off = -40_000 + 600 * v as i64;
+                if never_ok {
+                    ver.fault = Some(PpFault::MftBadSig);
+                }
+                ver
+            })
+            .collect();
+        cas.push(Ca { parent, key: i, module, not_after: 86400 * 365, cert_fault: None, versions, extra_res: None });
+        presence.push(if parent.is_some() && d.chance(1, 2) { patterns[d.below(6)].to_vec() } else { vec![true; 3] });
+    }
+    // a moved CA: same key and parent as an existing non-root CA, another module, complementary presence
+    if ncas > ntals && d.chance(1, 2) && cas.len() < 10 {
+        let j = ntals + d.below(ncas - ntals);
+        let mut moved = cas[j].clone();
+        moved.module = (cas[j].module + 1 + d.below(MODULES - 1)) % MODULES;
+        let at = 1 + d.below(nver.max(2) - 1);
+        presence[j] = (0..3).map(|v| v < at).collect();
+        presence.push((0..3).map(|v| v >= at).collect());
+        cas.push(moved);
+    }
+    for i in 0..cas.len() {
+        if let Some(pa) = cas[i].parent {
+            for v in 0..cas[pa].versions.len() {
+                if !presence[i][v.min(2)] {
+                    cas[pa].versions[v].omit_children.push(i);
+                }
+            }
+        }
+    }
+    let mut steps = Vec::new();
+    let mut modes = Vec::new();
+    for s in 0..nsteps {
+        let publish = cas.iter().map(|ca| s.min(ca.versions.len() - 1)).collect();
+        let fail_modules = (0..MODULES).filter(|_| d.chance(1, 8)).collect();
+        let offline = s > 0 && d.chance(1, 10);
+        steps.push(Step { publish, fail_modules, offline, stale: None });
+        let mode = if s == 0 || !d.chance(1, 3) { Mode::Normal } else { d.pick(&[Mode::ForcedRetry, Mode::ForcedFatal, Mode::Initial, Mode::PointBlocked(0), Mode::PointBlocked(1), Mode::PointBlocked(2)]) };
+        modes.push(match mode {
+            Mode::PointBlocked(_) => Mode::PointBlocked(d.below(8) as u8),
+            m => m,
+        });
+    }
+    Case { sc: Scenario { cfg, cas, steps }, modes, sleep_before: vec![] }
+}
+
+/// Thorough tier: some CAs carry manifests whose EE certificate expires 4 s after the world was
+/// created; the second run starts after the expiry.
+pub fn expiry_case(words: &[u16]) -> Case {
+    let mut c = case(words);
+    let mut d = D::new(words);
+    for _ in 0..7 {
+        d.next();
+    }
+    c.sc.cfg.dirty = false;
+    c.sc.steps.truncate(2);
+    c.modes = vec![Mode::Normal, Mode::Normal];
+    for s in c.sc.steps.iter_mut() {
+        s.offline = false;
+    }
+    let n = c.sc.cas.len();
+    let mut any = false;
+    for i in 0..n {
+        let leaf = !c.sc.cas.iter().any(|x| x.parent == Some(i));
+        if leaf && (d.chance(1, 2) || (!any && i == n - 1)) {
+            for v in c.sc.cas[i].versions.iter_mut() {
+                v.ee_after_off = SHORT_EE;
+            }
+            any = true;
+        }
+    }
+    c.sleep_before = vec![0, 1];
+    c
+}
+
+const SHORT_EE: i64 = 4;
+
+fn ca_expires(sc: &Scenario, ca: usize) -> bool {
+    sc.cas[ca].versions.iter().any(|v| v.ee_after_off == SHORT_EE)
+}
+
+/// The run of one step in the given mode. Ok(Some(output)) = successful run.
+fn run_step(world: &World, step: &Step, mode: Mode) -> Result<RunOutput, String> {
+    use routinator::engine::Engine;
+    use routinator::payload::ValidationReport;
+    let config = world.config();
+    let ex = empty_exceptions();
+    match mode {
+        Mode::Normal | Mode::PointBlocked(_) => {
+            let _g = RUNS.read().unwrap_or_else(|e| e.into_inner());
+            run_config(&config, step.offline, &ex)
+        }
+        Mode::ForcedRetry | Mode::ForcedFatal => {
+            // the hook is process-global: a forced run excludes every other run of this check
+            let _g = RUNS.write().unwrap_or_else(|e| e.into_inner());
+            let o = if mode == Mode::ForcedRetry { routinator::verif::Outcome::Retry } else { routinator::verif::Outcome::Fatal };
+            routinator::verif::set_forced_outcomes(vec![o], routinator::verif::Outcome::Ok, 1_000_000);
+            let r = run_config(&config, step.offline, &ex);
+            routinator::verif::clear_forced_outcomes();
+            r
+        }
+        Mode::Initial => {
+            let _g = RUNS.read().unwrap_or_else(|e| e.into_inner());
+            let mut engine = Engine::new(&config, !step.offline).map_err(|_| "Engine::new failed".to_string())?;
+            engine.ignite().map_err(|_| "ignite failed".to_string())?;
+            let started = std::time::Instant::now();
+            let (report, mut metrics) = ValidationReport::process(&engine, &config, true).map_err(|e| format!("run failed (fatal={})", e.is_fatal()))?;
+            let snapshot = report.into_snapshot(&ex, &mut metrics);
+            let payload = crate::pay::MSet::from_snapshot(&snapshot).map_err(|e| format!("snapshot has duplicates: {}", e))?;
+            Ok(RunOutput { payload, refresh: snapshot.refresh(), snapshot, metrics, elapsed: started.elapsed() })
+        }
+    }
+}
+
+/// Forced outcomes (process-global hook) take this lock exclusively, all other runs shared.
+static RUNS: std::sync::RwLock<()> = std::sync::RwLock::new(());
+
+/// Paths that existed before and are gone now, ignoring what a transfer may legitimately change.
+fn gone(before: &BTreeSet<String>, after: &BTreeSet<String>, transferred: &BTreeSet<usize>) -> Vec<String> {
+    before
+        .difference(after)
+        .filter(|p| {
+            if p.starts_with("stored/tmp/") {
+                return false;
+            }
+            // inside a module copy that rsync mirrored in this run (the mirror deletes what the server no longer has)
+            for m in transferred {
+                let inside = format!("rsync/{}/repo/", host(*m));
+                if p.starts_with(&inside) && p.len() > inside.len() {
+                    return false;
+                }
+            }
+            true
+        })
+        .cloned()
+        .collect()
+}
+
+fn modules_in_log(world: &World, from_line: usize) -> BTreeSet<usize> {
+    let mut res = BTreeSet::new();
+    for line in parse_rsync_log(&world.rsync_log()).iter().skip(from_line) {
+        for m in 0..MODULES {
+            if line.starts_with(&format!("{}/", host(m))) || *line == host(m) {
+                res.insert(m);
+            }
+        }
+    }
+    res
+}
+
+fn vanished_while_stored(sc: &Scenario, exp: &Expected, state: &ModelState) -> bool {
+    state.stored.keys().any(|j| match sc.cas[*j].parent {
+        Some(p) => exp.skipped.contains(j) && exp.accepted.get(&p).map(|(pv, _)| sc.cas[p].versions[*pv].omit_children.contains(j)).unwrap_or(false),
+        None => false,
+    })
+}
+
+fn prop(c: &Case, info: &mut CaseInfo) -> Verdict {
+    let sc = &c.sc;
+    let expiry = !c.sleep_before.is_empty();
+    let mut world = World::new(sc, scratch_base());
+    let t0 = std::time::Instant::now();
+    let mut state = ModelState::default();
+    let dead_srv = world.dir.path().join("srv-dead");
+    for m in 0..MODULES {
+        std::fs::create_dir_all(dead_srv.join(host(m))).unwrap();
+        std::fs::write(dead_srv.join(host(m)).join("repo.fail"), b"").unwrap();
+    }
+    info.class(if sc.cfg.dirty { "dirty" } else { "clean_up" });
+    if expiry {
+        info.class("short_expiry");
+    }
+    let mut verdict = Verdict::Pass;
+    let mut sc_eff = sc.clone();
+    'steps: for (n, step) in sc.steps.iter().enumerate() {
+        let mode = c.modes.get(n).copied().unwrap_or(Mode::Normal);
+        if expiry && n == 1 {
+            // start after the expiry with a margin of 2 s
+            let target = std::time::Duration::from_secs(SHORT_EE as u64 + 2);
+            if t0.elapsed() < target {
+                std::thread::sleep(target - t0.elapsed());
+            }
+            for i in 0..sc.cas.len() {
+                if ca_expires(sc, i) {
+                    for v in sc_eff.cas[i].versions.iter_mut() {
+                        v.ee_after_off = -1;
+                    }
+                    // an expired stored manifest is as good as none (and may be removed)
+                    state.stored.remove(&i);
+                }
+            }
+        }
+        world.publish(step);
+        let before = list_tree(&world.cache());
+        let log_from = parse_rsync_log(&world.rsync_log()).len();
+        // which CAs would this run attempt (for PointBlocked)
+        let mut probe_state = state.clone();
+        let exp_probe = model_step(&sc_eff, step, &mut probe_state);
+        let mut blocked: Option<(PathBuf, Option<Vec<u8>>)> = None;
+        let mut mode = mode;
+        if let Mode::PointBlocked(k) = mode {
+            let attempted: Vec<usize> = exp_probe.accepted.keys().chain(exp_probe.rejected.iter()).copied().filter(|j| !sc.cas[*j].versions.is_empty()).collect::<BTreeSet<_>>().into_iter().collect();
+            if attempted.is_empty() {
+                mode = Mode::Normal;
+            } else {
+                let j = attempted[k as usize % attempted.len()];
+                let path = world.stored_path(j);
+                let old = std::fs::read(&path).ok();
+                let _ = std::fs::remove_file(&path);
+                std::fs::create_dir_all(&path).unwrap();
+                blocked = Some((path, old));
+            }
+        }
+        info.class(format!("mode={}", format!("{:?}", mode).split('(').next().unwrap()));
+        let res = run_step(&world, step, mode);
+        if let Some((path, old)) = blocked.take() {
+            let _ = std::fs::remove_dir_all(&path);
+            if let Some(old) = old {
+                if let Some(parent) = path.parent() {
+                    let _ = std::fs::create_dir_all(parent);
+                }
+                std::fs::write(&path, old).unwrap();
+            }
+        }
+        let after = list_tree(&world.cache());
+        let transferred = modules_in_log(&world, log_from);
+        match res {
+            Err(e) => {
+                info.class("failed_run");
+                if mode == Mode::Normal {
+                    verdict = Verdict::fail("C40/run-failed", format!("step {}: {}", n, e));
+                    break 'steps;
+                }
+                // failed run => nothing deleted
+                let lost = gone(&before, &after, &transferred);
+                if !lost.is_empty() {
+                    verdict = Verdict::fail(format!("C40/failed-run-removed-data/mode={}", format!("{:?}", mode).split('(').next().unwrap()), format!("step {} ({:?}) failed ({}), yet these cache entries are gone: {:?}", n, mode, e, lost.iter().take(8).collect::<Vec<_>>()));
+                    break 'steps;
+                }
+                // bring the model in line with what the aborted run did: transfers happened for the
+                // logged modules; stored points are the old or the new complete version
+                if !step.offline && mode != Mode::Initial {
+                    for m in &transferred {
+                        if !step.fail_modules.contains(m) {
+                            state.local_modules.insert(*m);
+                            for (j, ca) in sc.cas.iter().enumerate() {
+                                if ca.module == *m {
+                                    state.local.insert(j, step.publish[j].min(ca.versions.len() - 1));
+                                }
+                            }
+                        }
+                    }
+                    for j in 0..sc.cas.len() {
+                        match world.read_stored(j) {
+                            Ok(Some(view)) => {
+                                // the previous version, what the local copy now holds (an unreachable
+                                // module leaves an older copy), or any other complete version
+                                let cand: Vec<usize> = state.stored.get(&j).copied().into_iter().chain(state.local.get(&j).copied()).chain(0..sc.cas[j].versions.len()).collect();
+                                let mut found = None;
+                                for v in cand.into_iter() {
+                                    if world.expected_stored(j, v) == view {
+                                        found = Some(v);
+                                        break;
+                                    }
+                                }
+                                match found {
+                                    Some(v) => {
+                                        state.stored.insert(j, v);
+                                    }
+                                    None => {
+                                        verdict = Verdict::fail("C40/failed-run-left-unknown-stored-point", format!("step {} ({:?}): after the failed run the stored point of ca{} equals no complete version", n, mode, j));
+                                        break 'steps;
+                                    }
+                                }
+                            }
+                            Ok(None) => {
+                                if state.stored.contains_key(&j) {
+                                    verdict = Verdict::fail("C40/failed-run-removed-data/stored-point", format!("step {} ({:?}): stored point of ca{} (version {:?}) is gone after the failed run", n, mode, j, state.stored.get(&j)));
+                                    break 'steps;
+                                }
+                            }
+                            Err(e) => {
+                                verdict = Verdict::Dropped(format!("stored_unreadable_after_failed_run:{}", truncate(&e, 40)));
+                                break 'steps;
+                            }
+                        }
+                    }
+                    for r in sc.cas.iter().enumerate().filter(|(_, c)| c.parent.is_none()).map(|(i, _)| i) {
+                        if state.local_modules.contains(&sc.cas[r].module) && transferred.contains(&sc.cas[r].module) {
+                            // the TA certificate may or may not have been stored; a later online run stores it anyway
+                            if after.iter().any(|p| p.starts_with("stored/ta/") && !p.ends_with('/')) {
+                                // cannot tell which TA from the hashed name; leave ta_stored as is unless the file count covers all roots
+                                let files = after.iter().filter(|p| p.starts_with("stored/ta/") && !p.ends_with('/')).count();
+                                if files == sc.cas.iter().filter(|c| c.parent.is_none()).count() {
+                                    state.ta_stored.insert(r);
+                                }
+                            }
+                        }
+                    }
+                }
+                continue;
+            }
+            Ok(out) => {
+                if matches!(mode, Mode::ForcedRetry | Mode::ForcedFatal) {
+                    verdict = Verdict::Dropped("forced_outcome_not_applied".into());
+                    break 'steps;
+                }
+                if matches!(mode, Mode::PointBlocked(_)) {
+                    // the blocked point was not reached: the run saw a cache the model does not describe
+                    verdict = Verdict::Dropped("blocked_point_not_reached".into());
+                    break 'steps;
+                }
+                if expiry && n == 0 && t0.elapsed() + std::time::Duration::from_millis(1500) > std::time::Duration::from_secs(SHORT_EE as u64) {
+                    verdict = Verdict::Dropped("time_guard".into());
+                    break 'steps;
+                }
+                let eff_step = if mode == Mode::Initial { Step { offline: true, ..step.clone() } } else { step.clone() };
+                let exp = model_step(&sc_eff, &eff_step, &mut state);
+                if out.payload != exp.payload {
+                    // C01/C02/C04 own this; here it only means the model and the run disagree
+                    verdict = Verdict::Dropped("payload_differs_from_model".into());
+                    break 'steps;
+                }
+                info.nt(vanished_while_stored(&sc_eff, &exp, &state));
+                if vanished_while_stored(&sc_eff, &exp, &state) {
+                    info.class("ca_vanished_while_stored");
+                }
+                if sc.cas.iter().enumerate().any(|(i, a)| sc.cas.iter().skip(i + 1).any(|b| a.key == b.key)) {
+                    info.class("ca_moved_between_modules");
+                }
+                // dirty => nothing removed
+                if sc.cfg.dirty {
+                    let lost = gone(&before, &after, &transferred);
+                    if !lost.is_empty() {
+                        verdict = Verdict::fail("C40/dirty-run-removed-data", format!("step {}: dirty is set, yet these cache entries are gone after the run: {:?}", n, lost.iter().take(8).collect::<Vec<_>>()));
+                        break 'steps;
+                    }
+                }
+                // (a) stored points
+                for (j, v) in state.stored.clone() {
+                    let want = world.expected_stored(j, v);
+                    match world.read_stored(j) {
+                        Ok(Some(got)) if got == want => {}
+                        Ok(Some(_)) => {
+                            verdict = Verdict::Dropped("store_holds_other_version_than_model".into());
+                            break 'steps;
+                        }
+                        Ok(None) => {
+                            let reached = exp.accepted.contains_key(&j) || exp.rejected.contains(&j);
+                            verdict = Verdict::fail(
+                                format!("C40/stored-point-removed/{}", if reached { "in-tree" } else { "not-in-tree" }),
+                                format!("step {}: the stored point of ca{} (version {}, manifest EE certificate valid for another {} s) is gone after a successful run; the CA was {} in this run", n, j, v + 1, sc.cas[j].versions[v].ee_after_off, if reached { "processed" } else { "not reached (vanished from its parent's manifest / parent rejected)" }),
+                            );
+                            break 'steps;
+                        }
+                        Err(e) => {
+                            verdict = Verdict::fail("C40/stored-point-unreadable", format!("step {}: ca{}: {}", n, j, e));
+                            break 'steps;
+                        }
+                    }
+                }
+                // (b) rsync module copies
+                for m in &state.local_modules {
+                    let dir = world.cache().join("rsync").join(host(*m)).join("repo");
+                    if !dir.is_dir() {
+                        let used_now = transferred.contains(m);
+                        let hosts: Vec<usize> = state.stored.keys().filter(|j| sc.cas[**j].module == *m).copied().collect();
+                        verdict = Verdict::fail(
+                            format!("C40/rsync-module-removed/{}", if used_now { "used-by-this-run" } else { "hosts-stored-point" }),
+                            format!("step {}: the local copy of module {} is gone after a successful run; transferred in this run: {}; unexpired stored points published there: {:?}", n, module_uri(*m), used_now, hosts),
+                        );
+                        break 'steps;
+                    }
+                }
+                for (j, v) in state.local.clone() {
+                    if !state.local_modules.contains(&sc.cas[j].module) {
+                        continue;
+                    }
+                    let dir = world.cache().join("rsync").join(host(sc.cas[j].module)).join("repo").join(format!("ca{}", j));
+                    let files = world.point(j, v).files.clone();
+                    for (name, data) in files {
+                        if std::fs::read(dir.join(&name)).ok().as_deref() != Some(data.as_ref()) {
+                            verdict = Verdict::fail("C40/rsync-copy-incomplete", format!("step {}: file {} of ca{} (version {}) is missing from / differs in the retained module copy {}", n, name, j, v + 1, dir.display()));
+                            break 'steps;
+                        }
+                    }
+                }
+                // (c) probe: every module unreachable, copy of the cache
+                let pdir = world.dir.path().join(format!("probe{}", n));
+                if copy_tree(&world.cache(), &pdir.join("cache")).is_err() {
+                    verdict = Verdict::Dropped("probe_copy".into());
+                    break 'steps;
+                }
+                let ppaths = WorldPaths { conf: pdir.join("routinator.conf"), cache: pdir.join("cache"), srv: dead_srv.clone(), rsync_log: pdir.join("rsync.log"), ..world.paths() };
+                let mut cfg = sc.cfg.clone();
+                cfg.dirty = true;
+                let probe_step = Step { fail_modules: (0..MODULES).collect(), offline: false, ..step.clone() };
+                let mut pstate = state.clone();
+                let pexp = model_step(&sc_eff, &probe_step, &mut pstate);
+                let probe = {
+                    let _g = RUNS.read().unwrap_or_else(|e| e.into_inner());
+                    run_config(&config_for(&cfg, &ppaths), false, &empty_exceptions())
+                };
+                match probe {
+                    Err(e) => {
+                        verdict = Verdict::fail("C40/probe-run-fails", format!("step {}: a run over a copy of the cache with every module unreachable fails: {}", n, e));
+                        break 'steps;
+                    }
+                    Ok(po) => {
+                        if po.payload != pexp.payload {
+                            let got: BTreeSet<_> = po.payload.items().into_iter().collect();
+                            let want: BTreeSet<_> = pexp.payload.items().into_iter().collect();
+                            verdict = Verdict::fail(
+                                "C40/cache-alone-does-not-reproduce-payload",
+                                format!("step {}: with every module unreachable the cache yields {} items, the model (stored {:?}, local copies {:?}) {}; missing e.g. {:?}, extra e.g. {:?}", n, got.len(), state.stored, state.local, want.len(), want.difference(&got).next(), got.difference(&want).next()),
+                            );
+                            break 'steps;
+                        }
+                    }
+                }
+                let _ = std::fs::remove_dir_all(&pdir);
+                if expiry && n == 1 {
+                    for i in 0..sc.cas.len() {
+                        if ca_expires(sc, i) {
+                            info.class(if world.stored_path(i).exists() { "expired_point_still_present" } else { "expired_point_absent" });
+                        }
+                    }
+                }
+            }
+        }
+    }
+    if std::env::var_os("RV_KEEP_WORLD").is_some() {
+        let p = world.dir.keep();
+        eprintln!("world kept at {}", p.display());
+    }
+    for cl in history_classes(sc) {
+        info.class(cl);
+    }
+    verdict
+}
+
+pub fn run(ctx: &Ctx, rep: &mut Report, replay: Option<&serde_json::Value>) {
+    rep.rule("E-rpki histories of 2-5 runs over 1-2 TALs, 3-8 CAs, 3 rsync modules: per non-root CA a presence pattern over the parent's versions (always / vanishes / appears / vanishes and re-appears), optionally one CA moved to another module (same key, new SIA, old certificate withdrawn), CAs that never succeed, unreachable modules, offline runs, dirty on (1 in 4) or off, and failing runs (1 in 3 of the later steps: forced retry / fatal outcome, initial quick run, stored point path blocked by a directory); oracle after each successful run: stored points of the model present and byte-identical, retained module copies present with the files last transferred, a probe run with every module unreachable reproduces the model payload from a copy of the cache; dirty or failed run => no cache entry is gone (except temp files and files inside a module rsync mirrored in that run); thorough tier adds histories where manifests expire 4 s after issuing and the second run happens after the expiry; non-trivial = a CA with an unexpired stored point vanished from its parent's accepted manifest; distinct by serialised case");
+    rep.assume("reference model Appendix A incl. its rule for rsync module copies (kept when attempted in this run or when a stored point lives in the module)");
+    rep.assume("a run that fails inside cleanup itself is not generated");
+    rep.assume("forced outcomes use the verif hook and are serialised process-wide");
+    ctx.shrink_iters.store(40, std::sync::atomic::Ordering::Relaxed);
+    if let Some(v) = replay {
+        let t: Tagged<Case> = serde_json::from_value(v.clone()).expect("replay");
+        run_case(ctx, rep, &t.sub, &t.case, prop);
+        return;
+    }
+    run_prop_par(ctx, rep, "history", ctx.tier.pick(96, 1600), 8, || genome(300).prop_map(|w| case(&w)), prop);
+    if ctx.tier == Tier::Thorough {
+        run_prop_par(ctx, rep, "expiry", 64, 8, || genome(300).prop_map(|w| expiry_case(&w)), prop);
+    }
+    // a run in which most histories could not be judged says nothing: infrastructure failure
+    let dropped: u64 = rep.dropped.values().sum();
+    if !rep.violated() && dropped * 2 > rep.evaluations {
+        eprintln!("C40: {} of {} histories were dropped ({:?}); no verdict", dropped, rep.evaluations, rep.dropped);
+        std::process::exit(2);
+    }
 }
